@@ -44,7 +44,8 @@ def scenarios(tier, rnd, varcfgs, classes):
     thorough = tier == "thorough"
     grind = lambda rate: {"q": 40, "pow": 10} if rate == 1 else {"q": 20, "pow": 10}
     rows = [
-        {"id": "f0", "mode": "fixed", "d": 2, "cfg": dict(rate=1, cap=4, a=2, f=3, nc=2, q=40, pow=16), "maxdb": 6, "dbs": [6], "per_class": 2},
+        {"id": "f0", "mode": "fixed", "d": 2, "cfg": dict(rate=1, cap=4, a=2, f=3, nc=2, q=40, pow=16), "maxdb": 6, "dbs": [6], "per_class": 2,
+         "unsupported": [5]},      # recorded only: a shorter proof in a circuit sized for one length
         {"id": "f1", "mode": "fixed", "d": 3, "cfg": dict(rate=2, cap=3, a=3, f=2, nc=2, q=20, pow=10), "maxdb": 7, "dbs": [7], "per_class": 2},
         {"id": "v0", "mode": "var", "d": 2, "cfg": dict(VC, nc=2, **grind(1)), "maxdb": 8, "mindb": 4, "dbs": [4, 5, 6, 7, 8], "per_class": 1},
     ]
@@ -108,8 +109,10 @@ def judge(byid, res, cats, varcat, report, selftest=False):
             continue
         if x.get("unsupported_length"):
             # the model lists this length as not assignable: the native verifier accepts, the assignment routine refuses
-            st["unsupported_lengths"].append({"id": x["id"], "db": x["db"], "native": x["native"], "assignable": x["assignable"], "detail": x["detail"]})
-            if x["assignable"]:
+            st["unsupported_lengths"].append({"id": x["id"], "db": x["db"], "mode": x.get("mode"), "native": x["native"], "assignable": x["assignable"],
+                                              "circuit": x["circuit"], "detail": x["detail"]})
+            # a fixed-degree circuit is sized for ONE length: another length is a different proof shape (recorded only)
+            if x["assignable"] and x.get("mode") == "var" and x["db"] >= s.get("mindb", 0):
                 report("drift", "unsupported-length-assignable", "a length the model lists as not assignable was assigned", {"scenario": s, "observed": x})
                 if x["circuit"] != x["native"]:
                     report("violation", "C11/disagree/unsupported-length", "in-circuit acceptance differs from the native verdict", {"scenario": s, "observed": x})
@@ -236,7 +239,7 @@ def run(chk, tier):
     var_lengths = [k for k in st["lengths"] if k.startswith("v")]
     if len(var_lengths) < 7 or any(v == 0 for v in st["lengths"].values()):
         raise ToolError("vacuity: variable-degree lengths exercised: %s" % st["lengths"])
-    if not any(u["native"] and not u["assignable"] for u in st["unsupported_lengths"]):
+    if not any(u["native"] and not u["assignable"] and u["mode"] == "var" for u in st["unsupported_lengths"]):
         raise ToolError("vacuity: no length outside the circuit's reach was recorded")
     for what, cls in named.items():
         chk.canary("the class named by the spec canary (%s: %s) is part of the replay" % (what, cls),
